@@ -22,6 +22,7 @@ Definition show_ev (e : ev) : string :=
   | ENoSuch i => "N" ++ show_nat i
   | ERun c n _ => "(r" ++ show_nat (cid c) ++ "@" ++ show_Z n ++ ":" ++ show_Z (getTime c)
   | EEnd _ => ")"
+  | ERaise _ => ")!"
   | EIter => "A"
   | EDone n => "=" ++ show_Z n
   | ETimeout None => "Tnone"
